@@ -85,8 +85,6 @@ def run_case(case, ctx):
     if case["kind"] == "table":
         tab = mixed.mixed_steps_tabulation(n, s)
         M = O.mixed_opt_table(n, s)
-        ck("table_shape", tuple(tab.shape) == (n + 1, s + 1, 3),
-           f"mixed_steps_tabulation({n},{s}) has shape {tab.shape}")
         for n_i in range(1, n + 1):
             for s_i in range(0 if n_i == 1 else 1, s + 1):
                 got = tuple(int(x) for x in tab[n_i, s_i])
